@@ -38,6 +38,12 @@ func deadline(t Tier, quick, thorough time.Duration) time.Time {
 // RunGraph explores sys within the list of bounds (iterated in order; the last completed one is
 // reported), confirms every violation by sequential replay and records everything in run.
 func RunGraph(run *report.Run, sys *explore.System, bounds []explore.Bounds, minOutcomes int) {
+	if ov := os.Getenv("VERIF_BOUNDS"); ov != "" && len(bounds) > 0 { // development aid: "depth,V"
+		var d, v int
+		if n, _ := fmt.Sscanf(ov, "%d,%d", &d, &v); n == 2 {
+			bounds = []explore.Bounds{{Depth: d, V: v, Deadline: bounds[0].Deadline}}
+		}
+	}
 	var last *explore.Result
 	var completed *explore.Result
 	totalStates, totalTrans, totalPaths := 0, int64(0), int64(0)
